@@ -12,20 +12,26 @@ enum Op {
     Set32(u64, u32),
 }
 
-fn ob_opt_u64(o: Option<Option<u64>>) -> String {
+/// fixed-width tokens (see Mem/C16Check.v `tok`): hex value | U.. (None) | P.. (panic)
+fn tok_u64(w: usize, o: Option<Option<u64>>) -> String {
     match o {
-        Some(Some(v)) => format!("V {}", v),
-        Some(None) => "U".into(),
-        None => "PA".into(),
+        Some(Some(v)) => format!("{:0w$x}", v, w = w),
+        Some(None) => "U".repeat(w),
+        None => "P".repeat(w),
     }
 }
-fn ob_const(o: Option<Option<falcon::il::Constant>>) -> String {
+fn tok_const(bits: u64, o: Option<Option<falcon::il::Constant>>) -> String {
+    let w = ((bits / 4) as usize).max(1);
     match o {
-        Some(Some(c)) => format!("W {} {}", c.bits(), c.value()),
-        Some(None) => "U".into(),
-        None => "PA".into(),
+        Some(Some(c)) => {
+            let h = c.value().to_str_radix(16);
+            if c.bits() as u64 != bits || bits % 4 != 0 || bits == 0 || h.len() > w { "X".repeat(w) } else { format!("{}{}", "0".repeat(w - h.len()), h) }
+        }
+        Some(None) => "U".repeat(w),
+        None => "P".repeat(w),
     }
 }
+fn hex(d: &[u8]) -> String { d.iter().map(|b| format!("{:02x}", b)).collect() }
 
 /// how the region [a, a+n) lies relative to an earlier region [b, b+m)
 fn shape(a: u128, n: u128, b: u128, m: u128) -> &'static str {
@@ -103,7 +109,7 @@ fn gen_case(seed: u64, idx: u64) -> Case {
 
     // ---- run the implementation
     let mut mem = Memory::new(if big { Endian::Big } else { Endian::Little });
-    let mut ores: Vec<&'static str> = vec![];
+    let mut ores = String::new();
     let mut done: Vec<Op> = vec![];
     let mut panicked = false;
     for op in &ops {
@@ -116,9 +122,9 @@ fn gen_case(seed: u64, idx: u64) -> Case {
             Op::Set32(a, v) => { let (a, v) = (*a, *v); observe(|| mem.set32(a, v)) }
         };
         match res {
-            Obs::Ok(()) => ores.push("V 0"),
-            Obs::Err(_) => ores.push("ER"),
-            Obs::Panic => { ores.push("PA"); panicked = true; break; }
+            Obs::Ok(()) => ores.push('k'),
+            Obs::Err(_) => ores.push('e'),
+            Obs::Panic => { ores.push('p'); panicked = true; break; }
         }
     }
     let ops = done;
@@ -127,52 +133,58 @@ fn gen_case(seed: u64, idx: u64) -> Case {
     tags.push(format!("history:{}", if panicked { "panicked" } else { "completed" }));
     tags.push(format!("ops:{}", match ops.len() { 1 => "1", 2..=4 => "2-4", 5..=8 => "5-8", _ => "9+" }));
     if ops.iter().any(|o| matches!(o, Op::Set32(..))) { tags.push("has:set32".into()); }
-    if ores.contains(&"ER") { tags.push("set32:refused".into()); }
+    if ores.contains('e') { tags.push("set32:refused".into()); }
     if ops.iter().any(|o| matches!(o, Op::Write(_, d, _) if d.is_empty())) { tags.push("has:empty-write".into()); }
 
     // ---- sweeps
-    let gbits: u64 = *r.pick(&[8u64, 16, 16, 24, 32, 32, 40, 64, 64, 128]);
-    let (mut layout, mut lo) = ("None".to_string(), 0u64);
-    let (mut g8, mut pm, mut g32, mut gs, mut gx) = (vec![], vec![], vec![], vec![], vec![]);
+    let gbits: u64 = *r.pick(&[8u64, 16, 16, 16, 24, 32, 32, 40, 64, 128]);
+    let (mut layout, mut lo, mut lo2) = ("None".to_string(), 0u64, 0u64);
+    let (mut g8, mut pm, mut g32, mut gs) = (String::new(), String::new(), String::new(), String::new());
+    let mut gx: Vec<String> = vec![];
     let mut nsec = 0;
+    let mut read_panic = false;
     if !panicked {
-        let secs: Vec<String> = mem.sections().iter().map(|(a, s)| {
-            format!("({}, ({}, {}))", a, coq_list(s.data().iter().map(|b| b.to_string())), s.permissions().bits())
-        }).collect();
+        let secs: Vec<String> = mem.sections().iter().map(|(a, s)| format!("({}, \"{}\", {})", a, hex(s.data()), s.permissions().bits())).collect();
         nsec = secs.len();
         layout = format!("(Some {})", coq_list(secs));
-        // hull of the history, +- 6, clipped to the u64 range and to 140 addresses
+        // hull of the history, +- 6, clipped to the u64 range and to 130 addresses
         let mut lo128: u128 = u128::MAX;
         let mut hi128: u128 = 0;
         for o in &ops {
             let (a, n) = match o { Op::Write(a, d, _) => (*a as u128, d.len() as u128), Op::Set32(a, _) => (*a as u128, 4) };
-            // regions written near the top may have wrapped: only the part below 2^64 counts
             lo128 = lo128.min(a);
             hi128 = hi128.max((a + n).min(1u128 << 64));
         }
         let lo_w = lo128.saturating_sub(6);
-        let hi_w = (hi128 + 6).min(1u128 << 64).min(lo_w + 140);
+        let hi_w = (hi128 + 6).min(1u128 << 64).min(lo_w + 130);
         lo = lo_w as u64;
         let cnt = (hi_w - lo_w) as u64;
         for i in 0..cnt {
             let x = lo + i;
-            g8.push(ob_opt_u64(observe_plain(|| mem.get8(x).map(|b| b as u64))));
-            pm.push(ob_opt_u64(observe_plain(|| mem.permissions(x).map(|p| p.bits() as u64))));
-            g32.push(ob_opt_u64(observe_plain(|| mem.get32(x).map(|v| v as u64))));
-            gs.push(ob_const(observe_plain(|| mem.get(x, gbits as usize))));
+            g8.push_str(&tok_u64(2, observe_plain(|| mem.get8(x).map(|b| b as u64))));
+            pm.push_str(&tok_u64(1, observe_plain(|| mem.permissions(x).map(|p| p.bits() as u64))));
         }
-        for _ in 0..12 {
+        // get32 / get(_, gbits) over a sub-window of at most 56 addresses
+        let cnt2 = cnt.min(56);
+        lo2 = lo + r.below(cnt - cnt2 + 1);
+        for i in 0..cnt2 {
+            let x = lo2 + i;
+            g32.push_str(&tok_u64(8, observe_plain(|| mem.get32(x).map(|v| v as u64))));
+            gs.push_str(&tok_const(gbits, observe_plain(|| mem.get(x, gbits as usize))));
+        }
+        for _ in 0..8 {
             let x = lo + r.below(cnt.max(1));
             let bits = *r.pick(&[0u64, 4, 12, 8, 16, 24, 32, 48, 64, 72, 96, 128, 256, 320]);
-            gx.push(format!("({}, {}, {})", x, bits, ob_const(observe_plain(|| mem.get(x, bits as usize)))));
+            gx.push(format!("({}, {}, \"{}\")", x, bits, tok_const(bits, observe_plain(|| mem.get(x, bits as usize)))));
         }
+        read_panic = g8.contains('P') || pm.contains('P') || g32.contains('P') || gs.contains('P') || gx.iter().any(|s| s.contains('P'));
     }
     tags.push(format!("sections:{}", match nsec { 0 => "0", 1 => "1", 2..=3 => "2-3", 4..=6 => "4-6", _ => "7+" }));
-    if gs.iter().chain(g8.iter()).chain(g32.iter()).any(|s| s == "PA") || gx.iter().any(|s| s.ends_with("PA)")) { tags.push("read:panicked".into()); }
+    if read_panic { tags.push("read:panicked".into()); }
 
     let op_coq = |o: &Op| match o {
-        Op::Write(a, d, p) => format!("OWrite {} {} {}", a, coq_list(d.iter().map(|b| b.to_string())), p),
-        Op::Set32(a, v) => format!("OSet32 {} {}", a, v),
+        Op::Write(a, d, p) => format!("XW {} \"{}\" {}", a, hex(d), p),
+        Op::Set32(a, v) => format!("XS {} {}", a, v),
     };
     let op_txt = |o: &Op| match o {
         Op::Write(a, d, p) => format!("set_memory(0x{:x}, {:?}, perm {})", a, d, p),
@@ -180,18 +192,17 @@ fn gen_case(seed: u64, idx: u64) -> Case {
     };
     let ops_coq = coq_list(ops.iter().map(op_coq));
     let coq = format!(
-        "K {} {} {} {} {} {} {} {} {} {} {}",
-        coq_bool(big), ops_coq, coq_list(ores.iter().map(|s| s.to_string())), layout, lo,
-        coq_list(g8.clone()), coq_list(pm.clone()), coq_list(g32.clone()), gbits, coq_list(gs.clone()), coq_list(gx.clone())
+        "K {} {} \"{}\" {} {} \"{}\" \"{}\" {} \"{}\" {} \"{}\" {}",
+        coq_bool(big), ops_coq, ores, layout, lo, g8, pm, lo2, g32, gbits, gs, coq_list(gx.clone())
     );
     let secs_txt: Vec<String> = if panicked { vec!["<history panicked>".into()] } else {
         mem.sections().iter().map(|(a, s)| format!("0x{:x}+{}:p{}", a, s.len(), s.permissions().bits())).collect()
     };
     let descr = format!(
-        "{} endian; {} => results {:?}; sections [{}]; sweep from 0x{:x} x{}: get8 {} | get(_,{}) {} | probes {}",
+        "{} endian; {} => results {}; sections [{}]; get8 from 0x{:x}: {} | get(_,{}) from 0x{:x}: {} | probes {}",
         if big { "big" } else { "little" },
         ops.iter().map(op_txt).collect::<Vec<_>>().join("; "),
-        ores, secs_txt.join(" "), lo, g8.len(), g8.join(","), gbits, gs.join(","), gx.join(",")
+        ores, secs_txt.join(" "), lo, g8, gbits, lo2, gs, gx.join(",")
     );
     let nwrites = ops.iter().filter(|o| matches!(o, Op::Write(..))).count();
     Case { coq, descr, tags, nontrivial: nwrites >= 2 && overlapping, key: format!("{}{}", big, ops_coq) }
@@ -204,7 +215,7 @@ fn main() {
     let cases: Vec<Case> = idxs.iter().map(|i| gen_case(args.seed, *i)).collect();
     write_cases(
         &args, "C16",
-        "From Coq Require Import ZArith List NArith.\nFrom Falcon Require Import Base.Res IL.Const Mem.Backing Mem.C16Check.\nImport ListNotations.\nLocal Open Scope Z_scope.",
+        "From Coq Require Import ZArith NArith String List.\nFrom Falcon Require Import Base.Res IL.Const Mem.Backing Mem.C16Check.\nImport ListNotations.\nLocal Open Scope string_scope.\nLocal Open Scope Z_scope.\nLocal Open Scope list_scope.",
         "ck", &cases, 16, serde_json::json!({}),
     );
 }
